@@ -103,6 +103,7 @@ pub fn run_scenario(sc: &Scenario, dir: &std::path::Path, background: bool) -> C
 		out.label("zero-salt");
 	}
 	out.count("point_reads", it.reads);
+	out.count("transactions_through_Db_commit", it.via_commit_api.get());
 	out.count("ops", sc.ops.len() as u64);
 	Ok(out)
 }
